@@ -254,7 +254,7 @@ class Gen:
     """Go main programs: fmt printing (Println/Printf/Print/Sprint/Sprintf/Fprintln), package functions
     (strings.ToUpper/Repeat, strconv.Itoa), user functions and methods, function-literal arguments.
     NOT generated (deterministic set): binders named like an import or like an XGo builtin, types
-    with a lower-case twin of a method, function literals with an empty `return`, negative literals."""
+    with a lower-case twin of a method, call statements in a for-post position, negative literals."""
 
     VARS = ["a", "b", "c", "x", "y", "k", "v", "w"]
 
@@ -549,6 +549,9 @@ def deterministic():
     P.append(("det-var-rhs-import", [fmt, ("fn", "show", ["s"], False, [println(V("s"))], "(s string)"),
                                       ("fn", "main", [], False, [println(S("start")), ("W", "fmt", sel("fmt", "Sprint", I(5))),
                                                                  ("E", False, call("show", V("fmt")))], None)]))
+    # control (b2092a4): a function literal whose body is a bare `return` becomes a block lambda
+    P.append(("det-bare-return-lit", [fmt, HELPERS["twice"], ("fn", "main", [], False, [
+        println(S("a")), ("E", False, call("twice", ("U", [], False, [("R", [])])))], None)]))
     P.append(("det-fmt-still-used", [fmt, ("fn", "main", [], False, [println(sel("fmt", "Sprint", I(1))),
                                                                    ("D", "e", sel("fmt", "Sprintln", I(2))), println(V("e"))], None)]))
     return P
@@ -574,6 +577,19 @@ import "fmt"
 func main() {
 	for i := 0; i < 2; fmt.Print(i, "\\n") {
 		i++
+	}
+}
+"""),
+    ("raw-for-post-incdec", """package main
+
+import "fmt"
+
+func main() {
+	for i := 0; i < 3; i++ {
+		fmt.Println(i)
+	}
+	for i, j := 0, 10; i < j; i, j = i+1, j-1 {
+		fmt.Printf("%d %d\\n", i, j)
 	}
 }
 """),
